@@ -38,6 +38,9 @@ func runC09(c *core.Ctx) {
 	c.MinInstances("C09-PRIO", 6)
 	c.MinInstances("C09-ORDER", 4)
 	c.MinInstances("C09-FLOW", 4)
+	// "the returned parts decode to the content under the returned coding": each codec's Encode/Decode are inverse pipelines
+	c.MinInstances("C09-CODEC", 18)
+	importRulesFn(c, "C05", "C09-CODEC", func(sub *core.Ctx) { cs := codecRules(sub); asciiPredicate(sub); selectRules(sub, cs) }, nil)
 	c.MinInstances("C09-FANOUT", 3)
 	c.Trust("sort.Sort sorts with respect to a strict weak order", "errgroup.Group.Wait happens-after every goroutine started with Go", "lo.Filter keeps exactly the elements its predicate accepts")
 	c.NotDecided("that each candidate's own part count is minimal (C06/C07)", "decoding of the returned parts (C05/C06)")
@@ -120,6 +123,24 @@ func prioRule(c *core.Ctx, global, ctor, typ string) {
 		seen[v] = k
 	}
 	c.Decide(bad == "", "C09-PRIO", key+"#injective", "", "priorities are positive and pairwise distinct", bad)
+	// documented order (batchencoder.go: "UCS2>GSM>latin1>other"; codec_cmpp.go / codec_smpp.go as of the pinned tree):
+	// only the ORDER is compared, the numeric values are free
+	docOrder := map[string][]int64{
+		"smppDataCodingPriority": {8, 0, 3, 1, 99}, // UCS2, GSM7 unpacked, Latin1, ASCII, GSM7 packed
+		"cmppDataCodingPriority": {9, 8, 15, 0},    // UCS2 without signature, UCS2, GBK, ASCII
+	}
+	if want, ok := docOrder[global]; ok {
+		var got []int64
+		for k := range table {
+			got = append(got, k)
+		}
+		sort.Slice(got, func(i, j int) bool { return table[got[i]] < table[got[j]] })
+		same := len(got) == len(want)
+		for i := 0; same && i < len(got); i++ {
+			same = got[i] == want[i]
+		}
+		c.Decide(same, "C09-PRIO", key+"#order", "", fmt.Sprint("codings by ascending priority value: ", got), fmt.Sprintf("the priority order of the codings is %v, the documented tie-break order is %v", got, want))
+	}
 	c.Decide(readers == 1, "C09-PRIO", key+"#read", "", "Priority() reads the table", fmt.Sprintf("%d Priority methods read %s (expected 1)", readers, global))
 	// key set == codings with a codec
 	fnObj := c.Prog.LookupFunc("datacoding", ctor)
